@@ -99,6 +99,7 @@ fixed("FX-grad-named-bound-method", ["C16"], "2d3ebd6", "grad_named(obj.method, 
 fixed("FX-jvp-writes-tangent-into-positional-out-buffer", ["C02", "C06"], "d2ac487", "forward mode with the output buffer passed POSITIONALLY (np.multiply(a, b, buf), np.sum(a, None, None, buf)) on \"same\" / def_linear functions: the keyword-only repair e5d0bff still let the tangent overwrite the primal held by the buffer", dict(case("multiply", [A(3), 1.7], argnum=0, tags=["out_buffer", "out_positional"]), fresh_out=[[3], "float64"], fresh_out_pos=2), witness_mode="fwd")
 fixed("FX-array-dtype-change-gradient-kind", ["C05"], "bb974d5", "np.array(x, dtype=...) on an array / scalar argument with a dtype that changes kind or precision (real -> complex, double -> single): the cotangent was handed back unchanged, so a real argument got a complex gradient (a float64 one a float32 gradient)", case("array", [A(3)], {"dtype": complex}, tags=["dtype_change"]))
 fixed("FX-sinc-at-zero", ["C01", "C02", "C07"], "199cdf8", "np.sinc at exactly 0 (0/0 in the rule): NaN derivative in both modes at a point where the function is smooth; next to 0 the rule lost its digits to cancellation", case("sinc", [onp.array([0.3, 0.0, -0.7, -0.0, 1e-9])], tags=["zero_point"]))
+fixed("FX-fft-vjp-writes-into-out-buffer", ["C10"], "c12359b", "np.fft.fft / ifft / fft2 / fftn / rfft* / irfft* called with out=buf (NumPy >= 2): the VJP rules forwarded out= to the adjoint transform, so a later call of the VJP function overwrote the primal result held by the caller's buffer", {"kind": "prim_repeat", "case": P.encode_case(dict(case("fft2", [A(2, 4)], ns="fft", tags=["out_buffer"]), fresh_out=[[2, 4], "complex128"]))})
 fixed("FX-where-jvp-broadcast", ["C05", "C02"], "423a953", "forward-mode np.where returned a tangent with the branch's shape/kind instead of the output's", case("where", [cc, A(3), A(2, 2, 3)], argnum=1), witness_mode="fwd")
 
 out = {"_comment": "Known findings: genuine defects of HIPS/autograd that are recorded rather than repaired (status open) and defects repaired by a 'fix:' commit (status fixed; fixed entries suppress nothing - their witnesses are re-run on every check and a failing one is an ordinary VIOLATION). `match` is a conjunction over fields of the case signature (lists = any of; {__re__}: regex; {__has__}: list membership); never a seed, hash or random value. Read-only at run time.", "findings": F}
